@@ -112,10 +112,36 @@ def series_record(tid, fn, a, dt, trap, rng):
                 o.reset_values(a.copy())
             a = np.asarray(o.values, dtype=float)
             rec["a"] = enc_seq(a)
+        elif fn == "obj" and rng.random() < 0.4:
+            # history: the object held a record that differs from this one by a few parts in a million in every sample, and
+            # its derived quantities were read
+            af = np.asarray(a, dtype=float)
+            o = eqsig.AccSignal(af * (1.0 - 3e-6) - 1e-6 * (np.max(np.abs(af)) + 1e-300), dt)
+            _ = (o.pgv, o.velocity[-1], o.pgd, o.displacement[-1], o.pga)
+            if rng.random() < 0.5:
+                o.reset_values(af.copy())
+            else:
+                o.add_series(af - np.asarray(o.values, dtype=float))
+            a = np.asarray(o.values, dtype=float)
+            rec["a"] = enc_seq(a)
         else:
             o = eqsig.AccSignal(a.copy(), dt)
+        # the integration rule is switched on the object in every order, with and without peaks read in between
+        r_ = rng.random()
         if not trap:
+            if r_ < 0.3:
+                _ = (o.pgv, o.pgd)
+            elif r_ < 0.5:
+                o.generate_displacement_and_velocity_series(trap=True)
             o.generate_displacement_and_velocity_series(trap=False)
+        elif r_ < 0.35:
+            o.generate_displacement_and_velocity_series(trap=False)
+            if r_ < 0.2:
+                _ = (o.pgd, o.pgv, o.velocity[-1])
+            if r_ < 0.1:
+                o.generate_displacement_and_velocity_series()
+            else:
+                o.generate_displacement_and_velocity_series(trap=True)
         ob = read_object(o, int(rng.integers(120)))      # read order varies over all permutations
         v, d, pk = ob["velocity"], ob["displacement"], (ob["pga"], ob["pgv"], ob["pgd"])
         rec.update(v=enc_seq(v), d=enc_seq(d), haspeaks=True, pga=enc(pk[0]), pgv=enc(pk[1]), pgd=enc(pk[2]))
